@@ -73,6 +73,15 @@ return its last bytes together with `io.EOF`; `eof_check_contract` vs `eof_check
 such call site is the end-of-stream probe of the envelope reader; a new site or a swapped order changes the fact. -/
 theorem read_sites_n_first : readSites = ["requireEncryptedArchiveEOF:n-first"] := by decide
 
+/-- Model `readFrames` / `readFramesVia`: between reading a frame header and the AEAD `Open`, `readNextFrame` can
+only FAIL — short header, unsupported type, oversize, short body; there is no `return nil` before `Open`, so no
+frame (a zero-length one in particular) is accepted without authentication (`zero_length_frame_rejected`). -/
+theorem frame_no_accept_before_open :
+    framePreOpenReturns = ["io.ReadFull(); err != nil => error", "io.ReadFull(); err != nil => error",
+      "frameType != encryptedArchiveFrameData && frameType != encryptedArchiveFrameFinal => error",
+      "ciphertextLen > maxEncryptedArchiveFrameSize => error", "io.ReadFull(); err != nil => error"] ∧
+    frameOpenReached = true := by decide
+
 /-- Model `decodeWhole` (`manifest_decode_total_input`): manifest.json and the archive header are decoded by
 `json.Unmarshal` on the WHOLE byte slice; the dump checkpoint (shared with C19) and every JSON line by a Decoder
 whose first value is followed by an explicit end-of-input check. The key envelope reader takes the first value of
